@@ -98,6 +98,12 @@ def make_decider(rng, mode, holder):
                 if not ready:
                     continue
                 ops = ready[:rng.choice([1, 1, 2])]
+                if rng.random() < 0.3:
+                    rng.shuffle(ops)                   # an admissible but non-canonical order of independent ready operators
+                if rng.random() < 0.25 and len(cands) >= 2:
+                    q = rng.choice([x for x in cands if x is not p])          # a container mixing operators of two pipelines
+                    more = [o["id"] for o in q["operators"] if o["is_assignable_state"] and o["parents_complete"] and o["id"] not in taken and o["id"] not in ops]
+                    ops = ops + more[:1]
                 c = rng.randint(1, max(1, min(cpu, 4)))
                 r = rng.choice([ram, ram / 2, min(ram, 16.0), min(ram, 64.0)])
                 if r <= 0:
